@@ -715,13 +715,27 @@ def c05_monitor(case, frames):
 
 
 def seen_gone(case, b, upto):
-    """{b} if the trace shows bar b leaving the display (flushed with shutdown>=1) before event upto"""
+    """{b} if the trace shows bar b leaving the display legitimately before event upto: its frame failed, it was
+    replaced by a queued successor or removed on completion (flush with shutdown 1), or popped out (shutdown 2 in
+    pop mode without no-pop)"""
+    pop = case["cfg"][5] == "1"
+    has_succ = set()
     for l in case["trace"]:
         f = l.split()
         if int(f[1]) >= upto:
             break
-        if f[2] == "CT_FLUSHBAR" and int(f[3][1:]) == b and int(f[4]) >= 1:
-            return {b}
+        if f[2] == "CT_ADD" and f[4] != "after=-1":
+            has_succ.add(int(f[4][7:]) if f[4].startswith("after=b") else int(f[4][6:]))
+        if f[2] == "CT_FLUSHBAR" and int(f[3][1:]) == b:
+            sh, rm, np, err = int(f[4]), f[6] == "1", f[7] == "1", (len(f) > 8 and f[8] == "1")
+            if err:
+                return {b}
+            if sh == 1 and (b in has_succ or (rm and not (pop and not np))):
+                return {b}
+            if sh == 2 and pop and not np:
+                return {b}
+            if sh >= 1 and case["cfg"][8] != "-":
+                return {b}     # fault-injected scenarios: the container is shutting down
     return set()
 
 
